@@ -252,6 +252,10 @@ where
                     file.lock_write().await.map_err(|e| e.error)?;
                 guard.inner_mut().set_len(length).await?;
 
+                // Records were collected newest first, return
+                // them in log order so that they can be
+                // re-applied to revert the rewind
+                records.reverse();
                 return Ok(records);
             }
 
